@@ -17,6 +17,13 @@
 //!             arbitrary string + every wrapper method; Header::create_header_map; Buffer::from_string; UnitTrace's mutators;
 //!             StatusCodeUpdate / LogOverride through serde; RouteTime / RouteDateTime / RouteWeekday / RouteIp directly;
 //!             Router::from_arc_config / insert_route / get_route_by_id; SupportedEncoding::new_hash_set
+//!   marker_transform {"rule": Rule JSON, "host", "xh", "xv", "config"}   a rule whose markers (host marker, header match_regex marker) and
+//!             variables (marker, request_header with default) carry transformer chains with degenerate options (empty
+//!             `something` / `with`, zero / inverted / huge slice bounds), matched by a request whose captured values and header
+//!             values are NON-ASCII: load -> match -> Action::from_routes_rule -> filter_headers / get_target / body filter
+//!   rule_strings {"rule": Rule JSON}   rule `time` / `datetime` / `weekdays` / ip strings malformed in multi-byte ways (a multi-byte
+//!             char at every byte offset 0..=12, full-width digits, trailing zone designators, > 8 bytes) at RULE LOADING
+//!             (Router::insert / into_route), then one match and one trace
 //!   transform {"kind", "options", "s"}                                                  every marker transformer through api::Transformer
 //!   slice     {"s": hex, "from": n, "to": n|null}         Slice::transform — compared with the Lean model (obs {"out": hex})
 //!   ffi_null  {"fn": name, "nulls": [bool]}               one extern "C" function under one null pattern of its nullable
@@ -384,10 +391,85 @@ fn mutated(rng: &mut Prng, mut v: Value) -> Value {
     v
 }
 
+const FORWARDED_FIXED: &[&str] = &[
+    "[", "\"[\"", "[é", "[日", "é[", "[]", "[]:", "[:", "[::1", "::1]", "[::1]", "[::1]:", "[::1]:80", "[::1]:99999", "::1", "::1:80", "]", "\"", "\"\"", "[\"", "\"]", "1.2.3.4",
+    "1.2.3.4:", "1.2.3.4:80", "1.2.3.4:é", ":80", ":", "", " ", ",", ";", "=", "==", "=\"", "for", "for=", "FOR=[", "_obf", "unknown", "[::ffff:1.2.3.4]:65536", "１.２.３.４", "1.2.3.4é",
+];
+
+/// a rule carrying one suspicious string in the trigger of the given kind (and in the matching Example fields)
+fn rule_with_string(kind: &str, v: &str) -> Value {
+    let mut source = json!({"path": "/rs", "host": null, "scheme": null, "query": null, "ips": null, "headers": null, "methods": null, "exclude_methods": null,
+        "response_status_codes": null, "exclude_response_status_codes": null, "sampling": null});
+    match kind {
+        "time" => source["time"] = json!([[v, null], [null, v], [v, v], ["00:00:00", v]]),
+        "datetime" => source["datetime"] = json!([[v, null], [null, v], [v, v]]),
+        "weekday" => source["weekdays"] = json!([v, "monday", v]),
+        _ => source["ips"] = json!([{"in_range": v}, {"not_in_range": v}]),
+    }
+    json!({"id": "rs", "source": source, "target": "/t", "status_code": 302, "rank": 0, "body_filters": null, "header_filters": null, "log_override": null, "reset": null, "stop": null,
+        "examples": [{"url": "/rs", "method": null, "headers": null, "datetime": v, "ip_address": v, "response_status_code": null, "must_match": true, "unit_ids_applied": []}],
+        "redirect_unit_id": null, "configuration_log_unit_id": null, "configuration_reset_unit_id": null, "target_hash": null})
+}
+
+const NON_ASCII: &[&str] = &["é", "日本語", "aé", "éa", "İ", "ß", "\u{1F600}x", "a\u{301}", "ǆ", "éééééééé", "ÀÉ"];
+
+/// transformer chains with degenerate options
+fn gen_degenerate_transformers(rng: &mut Prng) -> Value {
+    let one = |rng: &mut Prng| -> Value {
+        match rng.below(12) {
+            0 => json!({"type": "replace", "options": {"something": "", "with": ""}}),
+            1 => json!({"type": "replace", "options": {"something": "", "with": *rng.pick(NON_ASCII)}}),
+            2 => json!({"type": "replace", "options": {"something": *rng.pick(NON_ASCII), "with": ""}}),
+            3 => json!({"type": "replace", "options": {"something": *rng.pick(NON_ASCII), "with": *rng.pick(NON_ASCII)}}),
+            4 => json!({"type": "slice", "options": {"from": "0", "to": "0"}}),
+            5 => json!({"type": "slice", "options": {"from": rng.below(9).to_string(), "to": rng.below(9).to_string()}}),
+            6 => json!({"type": "slice", "options": {"from": *rng.pick(&["18446744073709551615", "9223372036854775808", "4294967296"]), "to": *rng.pick(&["18446744073709551615", "0", "1"])}}),
+            7 => json!({"type": "slice", "options": {"from": *rng.pick(NUMS), "to": *rng.pick(NUMS)}}),
+            8 => json!({"type": *rng.pick(&["camelize", "dasherize", "underscorize"]), "options": null}),
+            9 => json!({"type": *rng.pick(&["uppercase", "lowercase"]), "options": {}}),
+            10 => json!({"type": "replace", "options": {"something": "", "with": "x".repeat(rng.below(50))}}),
+            _ => gen_transformer(rng),
+        }
+    };
+    Value::Array((0..rng.below(4) + 1).map(|_| one(rng)).collect())
+}
+
+fn gen_marker_transform(rng: &mut Prng) -> Value {
+    let with_variables = rng.chance(2, 3);
+    let variables: Value = if with_variables {
+        json!([
+            {"name": "vm", "type": {"marker": "m"}, "transformers": gen_degenerate_transformers(rng)},
+            {"name": "vh", "type": {"request_header": {"name": "X-V", "default": *rng.pick(NON_ASCII)}}, "transformers": gen_degenerate_transformers(rng)},
+            {"name": "vn", "type": {"marker": "n"}, "transformers": gen_degenerate_transformers(rng)},
+            {"name": "vd", "type": {"request_header": {"name": "X-Absent", "default": *rng.pick(NON_ASCII)}}, "transformers": gen_degenerate_transformers(rng)},
+            {"name": "vp", "type": "request_path", "transformers": gen_degenerate_transformers(rng)},
+            {"name": "vo", "type": "request_host", "transformers": gen_degenerate_transformers(rng)},
+        ])
+    } else {
+        json!([])
+    };
+    let names = if with_variables { "@vm|@vh|@vn|@vd|@vp|@vo" } else { "@m|@n" };
+    let rule = json!({
+        "id": "mt",
+        "source": {"scheme": null, "host": "@m.example.org", "path": "/x", "query": null, "ips": null,
+            "headers": [{"type": "match_regex", "name": "X-H", "value": "v-@n"}],
+            "methods": null, "exclude_methods": null, "response_status_codes": null, "exclude_response_status_codes": null, "sampling": null},
+        "markers": [{"name": "m", "regex": "[^.]+", "transformers": gen_degenerate_transformers(rng)}, {"name": "n", "regex": ".+", "transformers": gen_degenerate_transformers(rng)}],
+        "variables": variables,
+        "target": format!("/t/{names}"), "status_code": 302, "rank": 0,
+        "header_filters": [{"action": "add", "header": "X-O", "value": names, "id": null, "target_hash": null}],
+        "body_filters": [{"action": "append_text", "content": names, "id": null, "target_hash": null}],
+        "log_override": null, "reset": null, "stop": null, "examples": null,
+        "redirect_unit_id": null, "configuration_log_unit_id": null, "configuration_reset_unit_id": null, "target_hash": null,
+    });
+    json!({"family": "marker_transform", "rule": rule, "host": format!("{}.example.org", rng.pick(NON_ASCII)), "xh": format!("v-{}", rng.pick(NON_ASCII)), "xv": *rng.pick(NON_ASCII),
+        "config": {"ignore_host_case": rng.chance(1, 2), "ignore_header_case": rng.chance(1, 2), "always_match_any_host": rng.chance(1, 2)}})
+}
+
 /// hand-parsed header values (api/log.rs: `Forwarded`, `X-Forwarded-For`): grammar pieces glued at random, with brackets,
 /// quotes, ports, obfuscated identifiers, empty items, stray separators and multi-byte characters
 fn forwarded_value(rng: &mut Prng) -> String {
-    const ADDR: &[&str] = &["10.0.0.1", "192.168.0.1:8080", "[::1]", "[::1]:443", "::1", "[2001:db8::1", "2001:db8::1]", "_hidden", "unknown", "é", "10.0.0.256", "1.2.3.4:99999", "[]", "", " ", "\u{0}", "1.2.3.4\t", "٣.٣.٣.٣", "0x7f.1", "127.1"];
+    const ADDR: &[&str] = &["[", "\"[\"", "[é", "[日", "[]:", "[::1]:", "[::1]:80", "[::1", "::1]", "]", "\"", "\"\"", "[\"", "1.2.3.4:", ":80", "[::ffff:1.2.3.4]:65536", "10.0.0.1", "192.168.0.1:8080", "[::1]", "[::1]:443", "::1", "[2001:db8::1", "2001:db8::1]", "_hidden", "unknown", "é", "10.0.0.256", "1.2.3.4:99999", "[]", "", " ", "\u{0}", "1.2.3.4\t", "٣.٣.٣.٣", "0x7f.1", "127.1"];
     const KEYS: &[&str] = &["for", "For", "FOR", "by", "host", "proto", "fo", "for ", " for", "", "é", "for=for"];
     const SEPS: &[&str] = &[", ", ",", ";", "; ", " ", ",,", ";;", ";,", ""];
     let n = rng.below(5);
@@ -486,6 +568,43 @@ fn gen(args: &Args, emit: &mut dyn FnMut(Value)) {
             emit(json!({"family": "request_time", "created_at": d, "ymdhms": c, "via": via}));
         }
     }
+    // api/log.rs parses `Forwarded` / `X-Forwarded-For` by hand: every adversarial element alone, keyed, quoted and in a list
+    for v in FORWARDED_FIXED {
+        for shape in 0..5 {
+            let value = match shape {
+                0 => v.to_string(),
+                1 => format!("for={v}"),
+                2 => format!("for=\"{v}\""),
+                3 => format!("for={v};by={v}, for={v}"),
+                _ => format!("{v}, {v},,{v}"),
+            };
+            for name in ["Forwarded", "X-Forwarded-For"] {
+                emit(json!({"family": "log", "request": {"url": "/", "headers": []}, "headers": [[name, value]], "client_ip": *v, "proxy": "p", "time": 1, "legacy": null, "exh": true}));
+            }
+        }
+    }
+    // rule strings malformed in multi-byte ways, at rule loading
+    for (kind, base) in [("time", "12:30:00"), ("time", "23:59:59.999"), ("datetime", "2000-01-01T00:00:00Z"), ("datetime", "2030-06-15T12:00:00+02:00"), ("weekday", "monday"), ("weekday", "Wed"), ("ip", "10.0.0.0/8"), ("ip", "2001:db8::/32")] {
+        let mut variants: Vec<String> = Vec::new();
+        for off in 0..=12usize {
+            for ch in ["é", "日", "１", "\u{1F600}"] {
+                let o = off.min(base.len());
+                variants.push(format!("{}{}{}", &base[..o], ch, &base[o..]));
+                if o < base.len() {
+                    variants.push(format!("{}{}{}", &base[..o], ch, &base[o + 1..])); // replaces one byte
+                }
+            }
+        }
+        let full_width: String = base.chars().map(|c| if c.is_ascii_digit() { char::from_u32(0xFF10 + c as u32 - '0' as u32).unwrap() } else { c }).collect();
+        variants.push(full_width);
+        for tail in ["Z", "z", "+02:00", " UTC", " +0000", "\u{0}", " ", "é"] {
+            variants.push(format!("{base}{tail}"));
+        }
+        variants.extend(["", "1", "12", "12:", "12:30", "12:30:0", "012:030:000", "12:30:00:00", "99:99:99", "１２:３０:００", "١٢:٣٠:٠٠", "12：30：00"].iter().map(|x| x.to_string()));
+        for v in variants {
+            emit(json!({"family": "rule_strings", "rule": rule_with_string(kind, &v), "exh": true}));
+        }
+    }
     // slice boundaries, exhaustively on three short strings
     for s in ["", "abc", "aé", "é日a"] {
         let n = s.len() as u64;
@@ -566,7 +685,8 @@ fn gen(args: &Args, emit: &mut dyn FnMut(Value)) {
                     "weekdays": Value::Array((0..rng.below(4)).map(|_| json!(*rng.pick(WEEKDAYS))).collect()),
                     "cidrs": [*rng.pick(IPS), *rng.pick(IPS)], "strs": strs, "code": *rng.pick(&[0u32, 200, 301, 404, 65535])})
             }
-            13 | 15 => json!({"family": "log", "request": gen_request(&mut rng),
+            15 => gen_marker_transform(&mut rng),
+            13 => json!({"family": "log", "request": gen_request(&mut rng),
                 "headers": Value::Array((0..rng.below(5)).map(|_| match rng.below(5) {
                     0 | 1 => json!([*rng.pick(&["Forwarded", "forwarded", "FORWARDED"]), forwarded_value(&mut rng)]),
                     2 | 3 => json!([*rng.pick(&["X-Forwarded-For", "x-forwarded-for"]), forwarded_value(&mut rng)]),
@@ -1006,6 +1126,62 @@ fn run_api_misc(case: &Value) -> Obs {
     o.tag(format!("api_misc:action-{}", action.is_some()))
 }
 
+fn run_marker_transform(case: &Value) -> Obs {
+    let config: RouterConfig = serde_json::from_value(case.get("config").cloned().unwrap_or(json!({}))).unwrap_or_default();
+    let rule: Rule = match serde_json::from_value(case.get("rule").cloned().unwrap_or(Value::Null)) {
+        Ok(r) => r,
+        Err(_) => return Obs::invalid("rule"),
+    };
+    let mut router = Router::<Rule>::from_config(config.clone());
+    router.insert(rule);
+    let mut request = Request::from_config(&config, "/x".to_string(), s(case, "host"), Some("http".to_string()), None, None, None);
+    request.add_header("X-H".to_string(), s(case, "xh").unwrap_or_default(), config.ignore_header_case);
+    request.add_header("X-V".to_string(), s(case, "xv").unwrap_or_default(), config.ignore_header_case);
+    let routes = router.match_request(&request);
+    let matched = routes.len();
+    for r in &routes {
+        let _ = Action::get_target(r, &request);
+        let _ = r.capture(&request);
+    }
+    let mut action = Action::from_routes_rule(routes, &request, None);
+    let status = action.get_status_code(0, None);
+    let headers = action.filter_headers(Vec::new(), status, true, None);
+    if let Some(mut f) = action.create_filter_body(status, &headers) {
+        let _ = f.filter("é<html>".as_bytes().to_vec(), None);
+        let _ = f.end(None);
+    }
+    let _ = serde_json::to_string(&router.trace_request(&request));
+    Obs::new(ok()).trivial(matched == 0).tag(format!("marker_transform:matched{}", matched.min(1)))
+}
+
+fn run_rule_strings(case: &Value) -> Obs {
+    let rj = case.get("rule").cloned().unwrap_or(Value::Null);
+    let _ = Rule::from_json(&rj.to_string());
+    let rule: Rule = match serde_json::from_value(rj) {
+        Ok(r) => r,
+        Err(_) => return Obs::new(ok()).trivial(true).tag("rule_strings:rejected"),
+    };
+    let config = RouterConfig::default();
+    let mut router = Router::<Rule>::from_config(config.clone());
+    let examples = rule.examples.clone().unwrap_or_default();
+    router.insert(rule.clone()); // into_route: route_ips / route_datetimes / route_times / route_weekdays
+    let mut request = Request::from_config(&config, "/rs".to_string(), None, None, None, "10.1.2.3".parse().ok(), None);
+    request.set_created_at(Some("2000-01-03T12:30:00Z".to_string()));
+    let n = router.match_request(&request).len();
+    let _ = serde_json::to_string(&router.trace_request(&request));
+    let _ = serde_json::to_string(&router.get_trace(&request));
+    for ex in &examples {
+        let _ = Request::from_example(&config, ex);
+    }
+    let input: Result<TestExamplesInput, _> = serde_json::from_value(json!({"router_config": {}, "rules": [serde_json::to_value(&rule).unwrap()], "max_hops": 1}));
+    if let Ok(i) = input {
+        let _ = TestExamplesOutput::create_result_without_project(i);
+    }
+    router.cache(None);
+    let _ = router.remove("rs");
+    Obs::new(ok()).tag(format!("rule_strings:matched{}", n.min(1)))
+}
+
 fn run_transform(case: &Value) -> Obs {
     let t: Transformer = match serde_json::from_value(json!({"type": case.get("kind"), "options": case.get("options")})) {
         Ok(t) => t,
@@ -1428,6 +1604,8 @@ fn run(case: &Value) -> Obs {
         "log" => run_log(case),
         "transform" => run_transform(case),
         "api_misc" => run_api_misc(case),
+        "marker_transform" => run_marker_transform(case),
+        "rule_strings" => run_rule_strings(case),
         "slice" => run_slice(case),
         "ffi_null" => run_ffi_null(case),
         "ffi_str" => run_ffi_str(case),
